@@ -17,21 +17,22 @@ type EV struct {
 }
 
 type Env struct {
-	e      *Enc
-	vars   map[string]EV
-	parent *Env
-	lookup func(name string) (EV, bool) // program variables at the site
-	curVer map[string]int              // nil: live e.cur
-	oldVer map[string]int              // versions for old(); missing = 0
-	visited func(k string) (string, error)
-	preVer  map[string]int // heap versions at entry to the loop whose invariant is being elaborated
-	qdepth  int            // quantifier nesting depth
-	qvars   []string       // bound variable terms of the innermost quantifier
-	trig    *[]string      // trigger candidates for the innermost quantifier
+	e         *Enc
+	vars      map[string]EV
+	parent    *Env
+	lookup    func(name string) (EV, bool) // program variables at the site
+	curVer    map[string]int               // nil: live e.cur
+	oldVer    map[string]int               // versions for old(); missing = 0
+	visited   func(k string) (string, error)
+	visitedOf func(n int, k string) (string, error)
+	preVer    map[string]int // heap versions at entry to the loop whose invariant is being elaborated
+	qdepth    int            // quantifier nesting depth
+	qvars     []string       // bound variable terms of the innermost quantifier
+	trig      *[]string      // trigger candidates for the innermost quantifier
 }
 
 func (env *Env) child() *Env {
-	return &Env{e: env.e, vars: map[string]EV{}, parent: env, lookup: env.lookup, curVer: env.curVer, oldVer: env.oldVer, visited: env.visited, preVer: env.preVer, qdepth: env.qdepth, qvars: env.qvars, trig: env.trig}
+	return &Env{e: env.e, vars: map[string]EV{}, parent: env, lookup: env.lookup, curVer: env.curVer, oldVer: env.oldVer, visited: env.visited, visitedOf: env.visitedOf, preVer: env.preVer, qdepth: env.qdepth, qvars: env.qvars, trig: env.trig}
 }
 
 func (env *Env) get(name string) (EV, bool) {
@@ -453,6 +454,17 @@ func (env *Env) elabCall(n ECall) (string, SType, error) {
 		t, err := env.visited(k)
 		return t, tBool, err
 	}
+	if strings.HasPrefix(n.Fn, "$visited") && len(n.Fn) > 8 && env.visitedOf != nil {
+		var ord int
+		if _, err := fmt.Sscanf(n.Fn[8:], "%d", &ord); err == nil {
+			k, _, err := env.elab(n.Args[0])
+			if err != nil {
+				return "", tBool, err
+			}
+			t, err := env.visitedOf(ord, k)
+			return t, tBool, err
+		}
+	}
 	if d, ok := w.specs.Defines[n.Fn]; ok && d.Opaque {
 		return env.elabOpaque(d, n)
 	}
@@ -462,7 +474,7 @@ func (env *Env) elabCall(n ECall) (string, SType, error) {
 		}
 		// macro: evaluate the body in an environment binding parameters to
 		// argument terms; heap reads happen in the caller's heap state.
-		c := &Env{e: e, vars: map[string]EV{}, curVer: env.curVer, oldVer: env.oldVer, visited: env.visited, preVer: env.preVer, qdepth: env.qdepth, qvars: env.qvars, trig: env.trig}
+		c := &Env{e: e, vars: map[string]EV{}, curVer: env.curVer, oldVer: env.oldVer, visited: env.visited, visitedOf: env.visitedOf, preVer: env.preVer, qdepth: env.qdepth, qvars: env.qvars, trig: env.trig}
 		var lets []string
 		for i, p := range d.Params {
 			at, ast, err := env.elab(n.Args[i])
@@ -478,6 +490,7 @@ func (env *Env) elabCall(n ECall) (string, SType, error) {
 			}
 			nm := q(e.freshName("m." + p.Name))
 			e.letLevel[nm] = env.qdepth
+			e.letDef[nm] = at
 			lets = append(lets, fmt.Sprintf("(%s %s)", nm, at))
 			c.vars[p.Name] = EV{nm, pst}
 		}
@@ -591,6 +604,12 @@ func (env *Env) elabOpaque(d *Define, n ECall) (string, SType, error) {
 	}
 	var as, sorts, binders, pnames []string
 	c := &Env{e: e, vars: map[string]EV{}, curVer: env.curVer, oldVer: env.oldVer, visited: env.visited, preVer: env.preVer}
+	stable := d.Stable && e.fv != nil && e.fv.modifiesNothing()
+	if stable {
+		// stable predicate in a `modifies nothing` function: evaluated in the entry state
+		c.curVer = map[string]int{}
+		c.oldVer = map[string]int{}
+	}
 	for i, p := range d.Params {
 		at, ast, err := env.elab(n.Args[i])
 		if err != nil {
@@ -605,6 +624,26 @@ func (env *Env) elabOpaque(d *Define, n ECall) (string, SType, error) {
 		}
 		as = append(as, at)
 		sorts = append(sorts, w.stypeSort(pst))
+		if stable && w.stypeSort(pst) == "Ref" {
+			// side condition: reference arguments are function parameters (allocated at entry)
+			t := at
+			for {
+				d2, ok := e.letDef[t]
+				if !ok {
+					break
+				}
+				t = d2
+			}
+			isParam := t == "nil" || strings.HasPrefix(t, "|op.")
+			for _, fp := range e.fn.Params {
+				if t == e.vname(fp) {
+					isParam = true
+				}
+			}
+			if !isParam {
+				return "", tBool, fmt.Errorf("stable predicate %s: reference argument %s is not a parameter of the enclosing function", d.Name, t)
+			}
+		}
 		pn := q("op." + d.Name + "." + p.Name)
 		pnames = append(pnames, pn)
 		binders = append(binders, fmt.Sprintf("(%s %s)", pn, w.stypeSort(pst)))
@@ -624,6 +663,13 @@ func (env *Env) elabOpaque(d *Define, n ECall) (string, SType, error) {
 	}
 	if err != nil {
 		return "", tBool, fmt.Errorf("in opaque %s: %v", d.Name, err)
+	}
+	if stable {
+		for h := range log {
+			if strings.HasPrefix(h, "|gh.") || strings.HasPrefix(h, "|it.") {
+				return "", tBool, fmt.Errorf("stable predicate %s reads ghost/iterator state %s", d.Name, h)
+			}
+		}
 	}
 	sig := strings.Join(sortedHeapNames(log), ",")
 	key := d.Name + "@" + sig
